@@ -84,11 +84,18 @@ func (c *Ctx) errDiscipline(fn *ssa.Function, match func(*core.Call) bool) (find
 					continue
 				}
 				for _, o := range latest {
-					for _, side := range []ssa.Value{bo.X, bo.Y} {
-						if isErrOperandOf(p.Resolve(side), o.call) {
+					for _, pair := range [][2]ssa.Value{{bo.X, bo.Y}, {bo.Y, bo.X}} {
+						if !isErrOperandOf(p.Resolve(pair[0]), o.call) {
+							continue
+						}
+						if k, isK := p.Resolve(pair[1]).(*ssa.Const); isK && k.Value == nil {
 							o.tested = true
 							// positive term is (e == nil); Val is its truth value
 							o.isErr = !cd.Val
+						} else if cd.Val {
+							// e equals some non-nil sentinel: the call failed, in a particular way
+							o.tested = true
+							o.isErr = true
 						}
 					}
 				}
